@@ -62,12 +62,13 @@ def dep_text(name, variant=0):
 GENERATED = ('Top-1.0', 'Aa-1.0', 'Bb-1.0')
 
 
-def write_atomic(path, data, mtime=None):
+def write_atomic(path, data, mtime_ns=None):
+    """mtime_ns: integer nanoseconds (sub-second timestamps are set exactly)."""
     tmp = '%s.%d.tmp' % (path, os.getpid())
     with open(tmp, 'w' if isinstance(data, str) else 'wb') as f:
         f.write(data)
-    if mtime is not None:
-        os.utime(tmp, (mtime, mtime))
+    if mtime_ns is not None:
+        os.utime(tmp, ns=(mtime_ns, mtime_ns))
     os.replace(tmp, path)
 
 
@@ -423,7 +424,45 @@ def inputs():
         B_('FooWidget::armed', [('w', '', 'w')], desc='Armed.'),
         B_('FooWidget', desc='A widget.'),
     ], dump={'foo_widget_get_type': k2}, includes=['GObject-2.0']))
+    # 13 - two typedef names for one struct tag (the GObject / GInitiallyUnowned pattern); the body
+    #      may come first, between or last
+    out.append(_inp('typedef2', [
+        Typedef('FooA', 'struct _FooT'),
+        Typedef('FooB', 'struct _FooT'),
+        Struct('_FooT', [Field('x', 'int'), Field('y', 'double'), Field('name', 'const char*')]),
+        Func('foo_b_get_x', 'int', [('FooB*', 'b')]),
+    ], files=[A, B, A, B], blocks=[
+        B_('FooB', [('x', '', 'the x')], desc='Second name.'),
+        B_('foo_b_get_x', [('b', '', 'b')], ret=('', 'x')),
+    ]))
+
+    # 14 - three typedef names for one union tag
+    out.append(_inp('typedef3', [
+        Typedef('FooU1', 'union _FooU'),
+        Typedef('FooU2', 'union _FooU'),
+        Typedef('FooU3', 'union _FooU'),
+        Struct('_FooU', [Field('i', 'int'), Field('d', 'double'), Field('p', 'gpointer')], union=True),
+        Func('foo_u2_peek', 'int', [('FooU2*', 'u'), ('FooU3*', 'other')]),
+    ], files=[A, A, B, B, A], blocks=[
+        B_('FooU3', desc='Third name.'),
+    ]))
     return out
+
+
+def tag_typedef_groups(decls):
+    """[[declaration indices]] of typedefs that name the same struct/union tag.  The scanner lets
+    the FIRST typedef of a tag own the structure ("the first typedef for a struct clobbers its
+    name and ctype", transformer.py), so the relative order of such typedefs is part of the
+    input; the position of the body among them is not."""
+    from vt.scan.fake import CTYPE_STRUCT, CTYPE_UNION
+    groups = {}
+    for i, d in enumerate(decls):
+        for sym in d.symbols():
+            t = sym.base_type
+            if sym.type == CSYMBOL_TYPE_TYPEDEF and t is not None and t.type in (CTYPE_STRUCT, CTYPE_UNION) \
+                    and t.name and not t.child_list:
+                groups.setdefault((t.type, t.name), []).append(i)
+    return [g for k, g in sorted(groups.items()) if len(g) > 1]
 
 
 def by_name(name):
